@@ -195,6 +195,8 @@ fn main() {
             let maxlen: usize = args[2].parse().unwrap();
             let tys = ["vec4<f32>", "f32", "mat4x4<f32>", "PC", "array<vec4<f32>, 3>", "mat3x3<f32>", "vec3<u32>"];
             let mut k = 0usize;
+            // a module with a push constant and NO entry point at all (a shared declarations file)
+            emit("pc:0:0:0", "struct PC { a: vec3<f32>, b: f32 }\nvar<push_constant> pc: PC;\nfn helper() -> f32 { return pc.b; }\n");
             for len in 1..=maxlen {
                 let total = 3usize.pow(len as u32);
                 for code in 0..total {
@@ -210,14 +212,17 @@ fn main() {
                     // switch / if / nested block of a helper, 8 = call statement under `if DEBUG { .. }` with `const DEBUG = false` (the whole
                     // condition is a module constant), 9 = in the else branch of a constant-true flag, 10 = after the same void helper was
                     // called twice in the block, 11 = only the ADDRESS of the variable is taken, never dereferenced (`let p = &pc;`)
-                    for usage in 0..12usize {
+                    for usage in 0..13usize {
                         let ty = tys[k % tys.len()];
                         k += 1;
                         let mut s = String::new();
                         s.push_str("struct PC { a: vec3<f32>, b: f32, c: vec2<f32> }\n");
                         s.push_str(&format!("var<push_constant> pc: {ty};\n"));
                         s.push_str("fn leaf() -> f32 { _ = pc; let p = pc; return 1.0; }\nfn mid() -> f32 { var x = 0.0; loop { if x > 1.0 { break; } continuing { x += leaf(); } } return x; }\n");
-                        if usage >= 5 {
+                        if usage == 12 {
+                            s.push_str("fn dead_inner() -> f32 { let p = pc; return 1.0; }\nfn dead() -> f32 { return dead_inner(); }\n");
+                        }
+                        if usage >= 5 && usage != 12 {
                             s.push_str("fn leafv() { _ = pc; }\n");
                             s.push_str("fn midv() { var x = 0.0; loop { if x > 1.0 { break; } continuing { x += 1.0; leafv(); } } }\n");
                             s.push_str("fn midf() { for (var i = 0u; i < 2u; leafv()) { i += 1u; } }\n");
@@ -248,6 +253,7 @@ fn main() {
                                     9 => "mide();",
                                     10 => "midr();",
                                     11 => "let p = &pc;",
+                                    12 => "",   // only a helper NOBODY calls mentions the variable (see `dead` below)
                                     _ => "let q = pc;",
                                 }
                             };
@@ -368,7 +374,8 @@ fn main() {
                 "BindGroup0", "BindGroupLayout0", "BindGroups", "wgpu", "glam", "std", "core", "bytemuck", "encase", "serde", "Option",
                 "Vec", "String", "Default", "None", "Some", "Self_", "offset", "size", "value", "buffer", "fmt", "other", "in", "dyn",
                 "box", "gen", "\u{394}t", "\u{65e5}\u{672c}", "VS0", "Vs0", "CS0_WORKGROUP_SIZE", "create_cs0_pipeline", "s0", "S0_", "x__y",
-                "HTTPServer", "a1B2", "Z_", "ScaleX_naga_oil_mod_XMFRGGX", "Vertex_Input", "vertex__input", "Host2",
+                "HTTPServer", "a1B2", "Z_", "ScaleX_naga_oil_mod_XMFRGGX", "Vertex_Input", "vertex__input", "Host2", "enable_bloom", "enabled", "_pad0", "_padding",
+                "shade_entry", "requires_x", "diagnostic_off", "_", "__x",
             ];
             let roles = ["struct", "member", "hostmember", "hoststruct", "nestedstruct", "global", "texture", "const", "override", "override_req",
                          "override_id", "function", "vertex", "fragment", "compute", "pushconst"];
@@ -399,9 +406,9 @@ fn main() {
                     let ce = pick("compute", "cs0");
                     let pc = pick("pushconst", "pc0");
                     let src = format!(
-                        "struct {s} {{ @location(0) {m}: vec4<f32>, @location(1) other_m: vec2<f32> }}\n\
+                        "struct {s} {{\n  @location(0)\n  {m}: vec4<f32>,\n  @location(1) other_m: vec2<f32>\n}}\n\
                          struct {ns} {{ w: vec4<f32> }}\n\
-                         struct {hs} {{ {hm}: vec4<f32>, inner: f32, nested: {ns}, arr: array<{ns}, 2> }}\n\
+                         struct {hs} {{\n  {hm}: vec4<f32>,\n  inner: f32,\n  nested: {ns},\n  arr: array<{ns}, 2>,\n}}\n\
                          struct Pc {{ k: vec4<f32> }}\n\
                          @group(0) @binding(0) var<uniform> {g}: {hs};\n\
                          @group(0) @binding(1) var {t}: texture_2d<f32>;\n\
@@ -444,6 +451,9 @@ fn main() {
                 ("ov:id-swapped", ov("@id(300) ", "@id(7) ", "")),
                 ("ov:plain-again", ov("", "", "")),
                 ("ov:id-third", ov("", "", "@id(0) ")),
+                ("ov:all-required", "override a: f32;\noverride b: bool;\n@id(65535) override c: u32;\n@fragment fn fs_main() -> @location(0) vec4<f32> { return vec4<f32>(select(a, -a, b) * f32(c)); }\n".to_string()),
+                ("ov:all-optional", "override a: f32 = 1.0;\noverride b: bool = true;\n@id(65535) override c: u32 = 2u;\n@fragment fn fs_main() -> @location(0) vec4<f32> { return vec4<f32>(select(a, -a, b) * f32(c)); }\n".to_string()),
+                ("ov:single-required", "override only: i32;\n@compute @workgroup_size(1) fn main() { _ = only; }\n".to_string()),
                 ("st:plain", st("position: vec3<f32>", "radius: f32", "")),
                 ("st:size", st("@size(16) position: vec3<f32>", "radius: f32", "")),
                 ("st:align", st("position: vec3<f32>", "@align(16) radius: f32", "")),
@@ -467,7 +477,11 @@ fn main() {
             // shaders that make a call END BADLY in different ways: the sequence harness runs them between other cases and checks that
             // nothing of the failure stays behind in the process (a "formatter is broken" flag, a poisoned lock, a cache that is only
             // cleared on success ..)
-            let list: [(&str, &str); 9] = [
+            let list: [(&str, &str); 13] = [
+                ("vertex-bool-location", "struct V { @location(0) p: vec4<f32>, @location(1) flag: u32, @location(2) b: vec2<bool> }\n@vertex fn vs(v: V) -> @builtin(position) vec4<f32> { return v.p; }\n"),
+                ("preprocessor-line", "#import common::types\n@compute @workgroup_size(1) fn main() { }\n"),
+                ("preprocessor-line-inside", "@compute @workgroup_size(1) fn main() {\n  #define N 4\n}\n"),
+                ("invalid-and-unsupported", "@group(0) @binding(0) var<uniform> counter: atomic<u32>;\n@compute @workgroup_size(1) fn main() { _ = atomicLoad(&counter); }\n"),
                 ("keyword-member-box", "struct S { box: vec4<f32> }\n@group(0) @binding(0) var<uniform> u: S;\n@compute @workgroup_size(1) fn main() { _ = u.box; }\n"),
                 ("keyword-global-in", "@group(0) @binding(0) var<uniform> in: vec4<f32>;\n@compute @workgroup_size(1) fn main() { _ = in; }\n"),
                 ("runtime-array-without-encase", "struct R { n: u32, items: array<vec4<f32>> }\n@group(0) @binding(0) var<storage, read> r: R;\n@compute @workgroup_size(1) fn main() { _ = r.n; }\n"),
@@ -480,6 +494,93 @@ fn main() {
             ];
             for (id, src) in list {
                 emit(&format!("provoke:{id}"), src);
+            }
+        }
+        "entries" => {
+            // EXHAUSTIVE over vertex-entry parameter lists: every ordered selection of up to 3 of {struct with locations, second struct,
+            // builtin-only struct, bare @builtin parameter, bare @location parameter}; a second vertex entry takes the same list
+            // reversed (shared structs, other order). Every shader also carries one fragment entry per result shape (none, direct
+            // location 0 / 3, direct builtin, struct dense / sparse / builtin-only / mixed) and compute entries with 1-, 2-, 3-dimensional
+            // and constant-driven workgroup sizes.
+            let items: [(&str, &str, &str); 5] = [
+                ("A", "a: VIn", "a.pos.x + a.uv.y"),
+                ("B", "b: Inst", "b.off.x + b.scale"),
+                ("Bi", "c: OnlyBuiltins", "f32(c.ii)"),
+                ("bb", "@builtin(vertex_index) vx: u32", "f32(vx)"),
+                ("bl", "@location(7) extra: f32", "extra"),
+            ];
+            let mut lists: Vec<Vec<usize>> = vec![vec![]];
+            for a in 0..5 {
+                lists.push(vec![a]);
+                for b in 0..5 {
+                    if b == a { continue; }
+                    lists.push(vec![a, b]);
+                    for c in 0..5 {
+                        if c == a || c == b { continue; }
+                        lists.push(vec![a, b, c]);
+                    }
+                }
+            }
+            let stride: usize = args.get(2).and_then(|x| x.parse().ok()).unwrap_or(1).max(1);
+            let offset: usize = args.get(3).and_then(|x| x.parse().ok()).unwrap_or(0) % stride;
+            for (k, l) in lists.iter().enumerate() {
+                if k % stride != offset {
+                    continue;
+                }
+                let id: Vec<&str> = l.iter().map(|&i| items[i].0).collect();
+                let mut s = String::new();
+                s.push_str("struct VIn { @location(0) pos: vec3<f32>, @location(1) uv: vec2<f32> }\n");
+                s.push_str("struct Inst { @location(2) off: vec4<f32>, @location(5) scale: f32 }\n");
+                s.push_str("struct OnlyBuiltins { @builtin(instance_index) ii: u32 }\n");
+                s.push_str("struct FDense { @location(0) c0: vec4<f32>, @location(1) c1: vec4<f32> }\n");
+                s.push_str("struct FSparse { @location(2) c2: vec4<f32> }\n");
+                s.push_str("struct FBuiltins { @builtin(frag_depth) d: f32, @builtin(sample_mask) m: u32 }\n");
+                s.push_str("struct FMixed { @builtin(frag_depth) d: f32, @location(4) c4: vec4<f32>, @location(1) c1: vec4<f32> }\n");
+                s.push_str("const WG: u32 = 8u;\n");
+                s.push_str("@vertex fn vs_first_without_structs() -> @builtin(position) vec4<f32> { return vec4<f32>(0.0); }\n");
+                for (name, order) in [("vs_a", l.clone()), ("vs_b", l.iter().rev().cloned().collect::<Vec<_>>())] {
+                    let params: Vec<&str> = order.iter().map(|&i| items[i].1).collect();
+                    let uses: Vec<&str> = order.iter().map(|&i| items[i].2).collect();
+                    let sum = if uses.is_empty() { "0.0".to_string() } else { uses.join(" + ") };
+                    s.push_str(&format!("@vertex fn {name}({}) -> @builtin(position) vec4<f32> {{ return vec4<f32>({sum}); }}\n", params.join(", ")));
+                }
+                s.push_str("@vertex fn vs_last_without_structs(@builtin(vertex_index) i: u32) -> @builtin(position) vec4<f32> { return vec4<f32>(f32(i)); }\n");
+                s.push_str("@fragment fn f_none() { }\n");
+                s.push_str("@fragment fn f_loc0() -> @location(0) vec4<f32> { return vec4<f32>(1.0); }\n");
+                s.push_str("@fragment fn f_loc3() -> @location(3) vec4<f32> { return vec4<f32>(1.0); }\n");
+                s.push_str("@fragment fn f_depth() -> @builtin(frag_depth) f32 { return 0.5; }\n");
+                s.push_str("@fragment fn f_dense() -> FDense { return FDense(vec4<f32>(1.0), vec4<f32>(0.0)); }\n");
+                s.push_str("@fragment fn f_sparse() -> FSparse { return FSparse(vec4<f32>(1.0)); }\n");
+                s.push_str("@fragment fn f_builtins() -> FBuiltins { return FBuiltins(0.5, 1u); }\n");
+                s.push_str("@fragment fn f_mixed(i: FDense) -> FMixed { return FMixed(0.5, i.c0, i.c1); }\n");
+                s.push_str("@compute @workgroup_size(1) fn c_1() { }\n@compute @workgroup_size(8, 4) fn c_2() { }\n@compute @workgroup_size(2, 3, 4) fn c_3() { }\n@compute @workgroup_size(WG, WG) fn c_const() { }\n");
+                emit(&format!("entries:{}", if id.is_empty() { "none".to_string() } else { id.join("-") }), &s);
+            }
+        }
+        "c11long" => {
+            // groups with MANY bindings (thresholds of 16 / 32 / 64 entries) and MANY groups (two-digit indices):
+            // one group of n variables, binding j repeats binding i for every i < j (n = 20), sampled pairs for n = 34 and 66;
+            // dense modules of 11, 12 and 101 groups declared in descending order
+            let decl = |g: u32, b: u32, i: usize| format!("@group({g}) @binding({b}) var<uniform> v{i}: vec4<f32>;\n");
+            let finish = |mut s: String, n: usize| { s.push_str("@compute @workgroup_size(1) fn main() { "); for i in (0..n).step_by(7) { s.push_str(&format!("_ = v{i}; ")); } s.push_str("}\n"); s };
+            for n in [20usize, 34, 66] {
+                let mut s = String::new();
+                for i in 0..n { s.push_str(&decl(0, i as u32, i)); }
+                emit(&format!("c11long:{n}:nodup"), &finish(s, n));
+                for j in 1..n {
+                    for i in 0..j {
+                        if n > 20 && !(i == 15 || i == 16 || i == 17 || i == 31 || i == 32 || i == 33 || i == 63 || i == 64 || i == 65 || j == i + 1 || i == 0) { continue; }
+                        if n > 20 && (j % 5 != 0 && j != n - 1 && j != i + 1) { continue; }
+                        let mut s = String::new();
+                        for q in 0..n { s.push_str(&decl(0, if q == j { i as u32 } else { q as u32 }, q)); }
+                        emit(&format!("c11long:{n}:{i}={j}"), &finish(s, n));
+                    }
+                }
+            }
+            for ng in [11usize, 12, 101] {
+                let mut s = String::new();
+                for g in (0..ng).rev() { s.push_str(&decl(g as u32, 0, g)); }
+                emit(&format!("c11long:groups:{ng}"), &finish(s, ng));
             }
         }
         "big" => {
@@ -512,6 +613,8 @@ fn main() {
                 "diamondvoid" => verif_harness::wgslgen::diamond_pure(n, true),
                 "nestedarr" => verif_harness::wgslgen::nested_struct_arrays(n),
                 "nesteddeep" => verif_harness::wgslgen::nested_deep(n),
+                "diamondptr" => verif_harness::wgslgen::diamond_ptr(n),
+                "nestedifs" => verif_harness::wgslgen::nested_ifs(n),
                 other => panic!("unknown family {other}"),
             };
             emit(&format!("family:{}:{n}", args[2]), &src);
